@@ -125,3 +125,89 @@ Fixpoint populate (tag : str) (t : tree) : elem :=
            end) kvs [] None [] in
       Elem tag attrs text kids
   end.
+
+(* ---- document level: XmlParser.parse_string and XmlFormatter.to_string ------------------------------------------
+   An XML document as the XML libraries hand it over: the namespace map of the root element (prefix None = the
+   default namespace), and the root element with its LOCAL tag (the `{uri}` part removed).  What the libraries do
+   between text and this view is trusted. *)
+Definition w_NOTSPECIFIED := of_string "NOTSPECIFIED".
+Definition w_None := of_string "None".
+Definition xs_uri := of_string "https://www.w3.org/2009/XMLSchema/XMLSchema.xsd".
+Definition k_xmlOpts := KS (of_string "_xmlOpts").
+Definition k_nameSpaces := KS (of_string "_nameSpaces").
+Definition k_rootTag := KS (of_string "_rootTag").
+Definition k_rootAttributes := KS (of_string "_rootAttributes").
+Definition k_addNodeNumbering := KS (of_string "_addNodeNumbering").
+Definition k_removeNodeNumbering := KS (of_string "_removeNodeNumbering").
+
+(* {prefix: uri} with the key None deleted and entered again as the string 'None' (at the end, or over a prefix that
+   is literally called None); an empty map is replaced by the default {xs: ...} *)
+Definition ns_dict (ns : list (option str * str)) : list (key * tree) :=
+  match ns with
+  | [] => [(KS (of_string "xs"), Leaf (SStr xs_uri))]
+  | _ =>
+      let named := fold_left (fun acc (pu : option str * str) =>
+                                match fst pu with Some p => aset (KS p) (Leaf (SStr (snd pu))) acc | None => acc end) ns [] in
+      fold_left (fun acc (pu : option str * str) =>
+                   match fst pu with None => aset (KS w_None) (Leaf (SStr (snd pu))) acc | Some _ => acc end) ns named
+  end.
+Definition xml_opts (numbering : bool) (ns : list (option str * str)) (root : elem) : tree :=
+  match root with
+  | Elem tag attrs _ _ =>
+      Dict [(k_nameSpaces, Dict (ns_dict ns));
+            (k_rootTag, Leaf (SStr (if nonempty tag then tag else w_NOTSPECIFIED)));
+            (k_rootAttributes, Dict (fold_left (fun a (kv : str * str) => aset (KS (fst kv)) (Leaf (SStr (snd kv))) a) attrs []));
+            (k_addNodeNumbering, Leaf (SBool numbering))]
+  end.
+(* parse_string: the nodes, then parsed_dict['_xmlOpts'] = {...} *)
+Definition parse_doc (numbering : bool) (ns : list (option str * str)) (root : elem) (count : Z) : list (key * tree) * Z :=
+  let '(nodes, c) := xml_parse numbering root count in
+  (aset k_xmlOpts (xml_opts numbering ns root) nodes, c).
+
+(* to_string up to the element tree handed to the XML library: the namespace the tags are put in (prefix, uri: the
+   first entry of the namespace table) and the root element.  None = outside the model (an `_xmlOpts` entry that is
+   not a dict, namespaces that are not a non-empty dict of strings, root attributes that are not a dict with string
+   keys, an explicit `_removeNodeNumbering` other than True: the library raises or emits names that are none). *)
+Definition is_attrib_entry (kv : key * tree) : bool :=
+  starts_with (of_string "_attrib") (key_text_xml (fst kv)) && match snd kv with Dict _ => true | _ => false end.
+Definition root_attrs (ra : list (key * tree)) : option (list (str * str)) :=
+  fold_right (fun (kv : key * tree) acc =>
+                match acc, fst kv with
+                | Some l, KS k => let v := py_str_tree (snd kv) in Some (if nonempty v then (k, v) :: l else l)
+                | _, _ => None
+                end) (Some []) ra.
+Definition first_ns (nsd : list (key * tree)) : option (str * str) :=
+  match nsd with
+  | (KS p, Leaf (SStr u)) :: rest =>
+      if forallb (fun kv : key * tree => match kv with (KS _, Leaf (SStr _)) => true | _ => false end) rest then Some (p, u) else None
+  | _ => None
+  end.
+Definition format_doc (d : list (key * tree)) : option (str * str * elem) :=
+  let default := (of_string "xs", xs_uri) in
+  let finish (ns : str * str) (tag : str) (ra : list (str * str)) :=
+    match populate tag (Dict d) with
+    | Elem t pattrs text kids => Some (ns, Elem t (if existsb is_attrib_entry d then pattrs else ra) text kids)
+    end in
+  match alookup k_xmlOpts d with
+  | None => finish default w_NOTSPECIFIED []
+  | Some (Dict o) =>
+      match (match alookup k_nameSpaces o with
+             | None => Some default
+             | Some (Dict nsd) => first_ns nsd
+             | Some _ => None
+             end),
+            (match alookup k_rootAttributes o with
+             | None => Some []
+             | Some (Dict ra) => root_attrs ra
+             | Some _ => None
+             end),
+            (match alookup k_removeNodeNumbering o with
+             | None | Some (Leaf (SBool true)) => true
+             | Some _ => false
+             end) with
+      | Some ns, Some ra, true =>
+          finish ns (match alookup k_rootTag o with Some t => py_str_tree t | None => w_NOTSPECIFIED end) ra
+      | _, _, _ => None
+      end
+  | Some _ => None
+  end.
